@@ -1,6 +1,7 @@
 package shimsim
 
 import (
+	"bytes"
 	"fmt"
 	"golang.org/x/crypto/ssh"
 	mrand "math/rand"
@@ -97,7 +98,35 @@ func GenFault(r *mrand.Rand) Fault {
 	return f
 }
 
-var passphrases = [][]byte{[]byte("pw"), []byte("pw"), {}, []byte("other"), []byte("pw2"), {0, 255, 10}}
+// passphrases: equal ones, different ones, and ones that differ only in a way a "normalising" comparison would
+// ignore (trailing line ends, surrounding blanks, case, a trailing NUL, a prefix)
+var passphrases = [][]byte{[]byte("pw"), []byte("pw"), {}, []byte("other"), []byte("pw2"), {0, 255, 10},
+	[]byte("pw\n"), []byte("pw\r\n"), []byte("\n"), []byte(" pw"), []byte("pw "), []byte("PW"), {'p', 'w', 0}, []byte("p")}
+
+// nearPass: a passphrase that differs from p only by line ends, blanks, case, a NUL or one byte at the end.
+func nearPass(r *mrand.Rand, p []byte) []byte {
+	q := append([]byte(nil), p...)
+	switch r.Intn(8) {
+	case 0:
+		return append(q, '\n')
+	case 1:
+		return append(q, '\r', '\n')
+	case 2:
+		return bytes.TrimRight(q, "\r\n ")
+	case 3:
+		return append(q, 0)
+	case 4:
+		return append([]byte{' '}, q...)
+	case 5:
+		return bytes.ToUpper(q)
+	case 6:
+		if len(q) > 0 {
+			return q[:len(q)-1]
+		}
+		return []byte{0}
+	}
+	return append(q, ' ')
+}
 
 // GenPlan draws one history.
 func GenPlan(r *mrand.Rand, pool *Pool, cfg *Cfg, class string) *Plan {
@@ -284,6 +313,9 @@ func GenPlan(r *mrand.Rand, pool *Pool, cfg *Cfg, class string) *Plan {
 			op.Pass = passphrases[r.Intn(len(passphrases))]
 			if isLocked && r.Intn(3) > 0 {
 				op.Pass = lockedWith
+				if r.Intn(4) == 0 { // almost the right passphrase
+					op.Pass = nearPass(r, lockedWith)
+				}
 			}
 			if isLocked && string(op.Pass) == string(lockedWith) {
 				isLocked = false
